@@ -15,7 +15,7 @@ def sampleMany (r : RE) (seed n : Nat) : List Word := Id.run do
 
 /-- requests (one per line, one reply line each):
     suites                                   -> suite:level,level:mode=group,group|mode=…;suite:…
-    explore <suite> <mode#> <k> <file>       -> `cert <states> <reps>` (definitions written to <file>) | `witness <hex>` | `overflow <n>`
+    explore <suite> <mode#> <k> <file>       -> `cert <states> <transitions>` (definitions written to <file>) | `witness <hex>` | `overflow <n>`
                                                 (k = 0: detection; k + 1: level k of the table)
     classify <suite> <hex>                   -> `<detected 0|1> <level,level|->`
     rm <suite> <level#|detect> <hex>         -> 0|1   (rmatch of the rendered re.search language)
@@ -34,7 +34,7 @@ def handle (line : String) : IO String := do
     | .overflow n => return s!"overflow {n}"
     | .cert c =>
       IO.FS.writeFile file c.toLean
-      return s!"cert {c.states.size} {c.reps.length}"
+      return s!"cert {c.states.size} {c.tbl.foldl (fun n r => n + r.size) 0}"
   | ["classify", sn, hex] =>
     match Hex.decode hex with
     | none => return "bad-op"
